@@ -14,6 +14,7 @@ import NixModel.Props.C12Frames
 import NixModel.Props.C12PropCreate
 import NixModel.Props.C12Roles
 import NixModel.Props.C12Attrs
+import NixModel.Props.C12TextVec
 
 /-!
 # C12 — a refused operation leaves the file exactly as it was
